@@ -83,6 +83,40 @@ def mutate(r, g, insts, per_class=2):
                             cls = "select_outside_list"
                         cands.append((cls, "%s.%s (%s%s) := %s" % (owner, an, kind, " optional" if opt else "", bad), with_toks(toks[:a] + [bad] + toks[b:]), iid, False))
                     cands.append(("star_not_derived", "%s.%s (%s) := *" % (owner, an, kind), with_toks(toks[:a] + ["*"] + toks[b:]), iid, False))
+                    # one element of an aggregate of simple values replaced by a literal of the wrong kind: first, middle, last
+                    if kind == "KAggregate" and toks[a] == "(" and toks[b - 1] == ")" and not isinstance(at[1], tuple) or \
+                            (kind == "KAggregate" and toks[a] == "(" and toks[b - 1] == ")" and isinstance(at[1], tuple) and at[1][0] == "enum"):
+                        inner = toks[a + 1:b - 1]
+                        if "(" not in inner and inner:
+                            elems = [j for j, t_ in enumerate(inner) if t_ != ","]
+                            ek = kind_of(at[1])
+                            for pos_name, j in (("first", elems[0]), ("middle", elems[len(elems) // 2]), ("last", elems[-1])):
+                                if len(elems) < 2 and pos_name != "first":
+                                    continue
+                                for badv in WRONG_KIND.get(ek, [])[:3]:
+                                    if badv in ("$", "(1)", "(1.)"):
+                                        continue
+                                    ni = inner[:j] + [badv] + inner[j + 1:]
+                                    cands.append(("wrong_kind_element" if badv not in (".PURPLE.", ".MAYBE.") else "undeclared_enum_item",
+                                                  "%s.%s (aggregate of %s, %s element of %d) := %s" % (owner, an, ek, pos_name, len(elems), badv),
+                                                  with_toks(toks[:a + 1] + ni + toks[b - 1:]), iid, False))
+                    # an element of an inner aggregate (LIST OF LIST OF INTEGER) replaced by a literal of the wrong kind
+                    if kind == "KAggregate" and isinstance(at[1], tuple) and at[1][0] == "agg" and toks[a] == "(":
+                        inner_pos = [j for j in range(a + 1, b - 1) if toks[j] not in ("(", ")", ",")]
+                        if inner_pos:
+                            j = r.choice(inner_pos)
+                            for badv in ("'x'", ".T."):
+                                cands.append(("wrong_kind_element", "%s.%s (nested aggregate of %s) inner element := %s" % (owner, an, kind_of(at[1][1]), badv),
+                                              with_toks(toks[:j] + [badv] + toks[j + 1:]), iid, False))
+                    # a reference to an instance that does not exist, held by a SELECT attribute or by an aggregate of selects
+                    if kind == "KSelect" and any(m_[0] is None for m_ in at[1]):
+                        cands.append(("dangling_reference", "%s.%s (KSelect) := #999999" % (owner, an), with_toks(toks[:a] + ["#999999"] + toks[b:]), iid, False))
+                    if kind == "KAggregate" and isinstance(at[1], tuple) and at[1][0] == "select" and any(m_[0] is None for m_ in at[1][1]):
+                        cands.append(("dangling_reference", "%s.%s (aggregate of KSelect) := (#999999)" % (owner, an), with_toks(toks[:a] + ["(", "#999999", ")"] + toks[b:]), iid, False))
+                        inner = toks[a + 1:b - 1] if toks[a] == "(" else []
+                        if inner and "(" not in inner:
+                            cands.append(("dangling_reference", "%s.%s (aggregate of KSelect, appended) := (..., #999999)" % (owner, an),
+                                          with_toks(toks[:b - 1] + [",", "#999999"] + toks[b - 1:]), iid, False))
                     if kind == "KEntity":
                         wrong = [i["id"] for i in insts if not i["complex"] and i["parts"][0][0] not in at[1]]
                         if wrong:
@@ -143,8 +177,10 @@ def mutate(r, g, insts, per_class=2):
         key = c[0]
         if c[0] in ("unterminated_instance", "unterminated_after_null"):
             key = c[0] + " " + c[1]
-        if " := " in c[1] and c[0] in ("wrong_kind", "undeclared_enum_item", "dangling_reference", "select_outside_list"):
+        if " := " in c[1] and c[0] in ("wrong_kind", "wrong_kind_element", "undeclared_enum_item", "dangling_reference", "select_outside_list"):
             key = c[0] + " " + c[1].split(" (", 1)[1]        # "<kind>) := <bad value>", optional and required apart
+        if c[0] == "ill_typed_reference":
+            key = c[0] + " " + c[1].split(" := ")[0]             # per attribute: redeclared ones (CARRIER.load in DCARRIER) have their own reader path
         if seen.get(key, 0) < per_class:
             seen[key] = seen.get(key, 0) + 1
             out.append(c)
@@ -304,9 +340,9 @@ def main(tier, seed):
 
 
 def sig_of(cls, desc, bad):
-    # errors inside the parts of an externally mapped instance are dropped by STEPcomplex::STEPread (open finding)
-    if desc.startswith("complex part") and ("not reported" in bad or "exits 0" in bad):
-        return "complex_part_errors_dropped"
+    # a value for an attribute that another part of the same complex instance derives is tolerated on purpose (open finding)
+    if desc.startswith("complex part value for derived") and ("not reported" in bad or "exits 0" in bad):
+        return "complex_part_value_for_derived_tolerated"
     return None
 
 
